@@ -401,6 +401,24 @@ Check C17_there_and_back_float_table : forall ua ub ka kb la lb v,
   let r4 := through_base fl r2 ub ua in
   (Rabs (Rv r4 - Rv v) <= ((1 + u53') * (1 + u53') * (1 + u53') * (1 + u53') - 1) * Rabs (Rv v))%R.
 Print Assumptions C17_there_and_back_float_table.
+(* COMPOSITION WITH NO RANGE HYPOTHESES, over the regenerated table: every triple of linear / reciprocal units, every
+   valid finite double with 2^-400 <= |v| <= 2^400: A -> B -> C and A -> C differ by at most ((1+u/(1-u))^4 - 1)|A -> C| *)
+Theorem C17_composition_float_table : forall ua ub uc ka kb kc la lb lc v,
+  In ua all_units -> In ub all_units -> In uc all_units ->
+  kind_coef ua = Some (ka, la) -> kind_coef ub = Some (kb, lb) -> kind_coef uc = Some (kc, lc) ->
+  fin v -> within 400 (Rv v) ->
+  let direct := through_base fl v ua uc in
+  let via := through_base fl (through_base fl v ua ub) ub uc in
+  (Rabs (Rv via - Rv direct) <= ((1 + u53') * (1 + u53') * (1 + u53') * (1 + u53') - 1) * Rabs (Rv direct))%R.
+Proof. exact composition_float_table. Qed.
+Check C17_composition_float_table : forall ua ub uc ka kb kc la lb lc v,
+  In ua all_units -> In ub all_units -> In uc all_units ->
+  kind_coef ua = Some (ka, la) -> kind_coef ub = Some (kb, lb) -> kind_coef uc = Some (kc, lc) ->
+  fin v -> within 400 (Rv v) ->
+  let direct := through_base fl v ua uc in
+  let via := through_base fl (through_base fl v ua ub) ub uc in
+  (Rabs (Rv via - Rv direct) <= ((1 + u53') * (1 + u53') * (1 + u53') * (1 + u53') - 1) * Rabs (Rv direct))%R.
+Print Assumptions C17_composition_float_table.
 Example C17_float_table_hypotheses_satisfiable :
   existsb (fun ua => existsb (fun ub =>
      match kind_coef ua, kind_coef ub with
